@@ -185,12 +185,12 @@ func calleeShort(c *ssa.CallCommon) string {
 	}
 	switch f := c.Value.(type) {
 	case *ssa.Function:
-		return f.Name()
+		return BaseShortName(f)
 	case *ssa.Builtin:
 		return f.Name()
 	case *ssa.MakeClosure:
 		if fn, ok := f.Fn.(*ssa.Function); ok {
-			return fn.Name()
+			return BaseShortName(fn)
 		}
 	}
 	return ""
@@ -439,7 +439,9 @@ func (r *renderer) deref(p ssa.Value) string {
 	case *ssa.FreeVar:
 		return "^" + x.Name()
 	case *ssa.Global:
-		return Short(x.Pkg.Pkg.Path()) + "." + x.Name()
+		t := Short(x.Pkg.Pkg.Path()) + "." + x.Name()
+		globalOfTerm[t] = x
+		return t
 	}
 	return "*" + r.term(p)
 }
@@ -1050,3 +1052,7 @@ func SameTerms(a, b Atom) bool {
 	}
 	return pos || neg
 }
+
+// globalOfTerm remembers which package-level variable a rendered load stands for
+// (used to know that an error sentinel such as io.EOF is not nil).
+var globalOfTerm = map[string]*ssa.Global{}
